@@ -9,5 +9,9 @@ trap 'rm -rf "$T"' EXIT
 if [ -d harness/synct ]; then
   ( cd harness && go1.26.8 test -tags verif -race -c -o "$T/synct.test" ./synct )
 fi
+# the schedule-perturbed copy (DESIGN 10.10): warms the cache for the harness packages built with the verifyield tag
+( cd harness && go build -o "$T/perturb" ./cmd/perturb ) && "$T/perturb" /repo "$T/yrepo" >/dev/null &&
+  sed "s#=> /repo#=> $T/yrepo#" harness/go.mod > "$T/y.mod" && cp harness/go.sum "$T/y.sum" &&
+  ( cd harness && go build -modfile="$T/y.mod" -tags "verif verifyield" -race -o "$T/verif-yield" ./cmd/verif )
 "$T/verif" list >/dev/null
 echo "setup ok"
